@@ -320,6 +320,7 @@ def policy_harness(cname, k, first=None):
                 removed = o.remove_trait(name)
                 ex.check(removed is True and name not in o._instance_traits(),
                          "remove_trait removes the instance trait (whether or not a value was ever stored) and says so")
+                ex.check(name not in o.__dict__, "remove_trait takes the value away as well")
                 inst.pop(name, None)
                 written.pop(name, None)
                 if it is not None:
@@ -414,6 +415,127 @@ def policy_harness(cname, k, first=None):
     return harness
 
 
+DELEG = [("_scratch", "scratch"), ("cache", "_cache"), ("tmp_alias", "other"), ("other", "tmp_9"), ("_n", "n"), ("m", "n"),
+         ("_p", "_q"), ("tmp_1", "tmp_2")]
+
+
+def delegated_write_harness(cname):
+    """a write that reaches an object through a RENAMING delegation is governed by the rule of the target name on the delegate
+    (not by the name used on the deferring object): strict / private / wildcard rules of the delegate's class"""
+    def harness(ex):
+        cls = CLASSES[cname]()
+        store = cls()
+        which = ex.choice("delegation", len(DELEG))
+        fa, target = DELEG[which]
+        Front = type("Front", (HasTraits,), {"store": Instance(cls), fa: DelegatesTo("store", prefix=target, listenable=False)})
+        front = Front(store=store)
+        it = cenv.new_interp() if ex.sym else None
+        rule, tr = spec_governing(cls, store, target, {})
+        pol = kind_of(tr)
+        for step in range(2):
+            value = [7, "text", None][ex.choice("value%d" % step, 3)]
+            before = dict(store.__dict__)
+            res = access(ex, it, front, "write", fa, value)
+            after = dict(store.__dict__)
+            ex.check(fa not in front.__dict__ or fa == "store", "a delegated write stores nothing on the deferring object")
+            if pol == "disallow":
+                ex.check(res[0] == "raised" and after == before,
+                         "a delegated write to a name the delegate's class does not allow is rejected and stores nothing")
+            elif pol == "python":
+                ex.check(res[0] == "ok" and target in after and after[target] is value and
+                         {k_: v_ for k_, v_ in after.items() if k_ != target} == {k_: v_ for k_, v_ in before.items() if k_ != target},
+                         "a delegated write to a plain attribute of the delegate stores the value there, under the target name only")
+            elif pol == "readonly":
+                pass
+            else:
+                h = tr.handler
+                ok_val = isinstance(value, int) if isinstance(h, Int) else True
+                if ok_val:
+                    ex.check(res[0] == "ok" and after.get(target) == value and set(after) - set(before) <= {target},
+                             "a delegated write valid for the target's trait is stored under the target name only")
+                else:
+                    ex.check(res[0] == "raised" and after == before, "a delegated write invalid for the target's trait is rejected")
+        return {"delegation": [fa, target], "policy": pol}
+    return harness
+
+
+def transplanted_definition_harness(ex):
+    """a trait definition taken from one class (as is, or through copy / deepcopy / pickle) and added to another object with
+    add_trait keeps its policy; remove_trait takes the definition AND the value away, and the class's own rule is back"""
+    import copy
+    import pickle
+
+    class Template(HasTraits):
+        serial = ReadOnly
+        fixed = Constant(42)
+        ev = Event(Int)
+        num = Int(3)
+
+    kind = ["serial", "fixed", "ev", "num"][ex.choice("definition", 4)]
+    how = ["as-is", "copy", "deepcopy", "pickle2", "pickle4"][ex.choice("transplant", 5)]
+    strict = ex.flag("strict_target")
+    d = Template().trait(kind)
+    if how == "copy":
+        d = copy.copy(d)
+    elif how == "deepcopy":
+        d = copy.deepcopy(d)
+    elif how.startswith("pickle"):
+        if kind == "serial":
+            return {"skipped": "the ReadOnly definition cannot be pickled at all (trait_types rebinds the class name to an "
+                               "instance): recorded under C14 as a known finding"}
+        d = pickle.loads(pickle.dumps(d, protocol=int(how[-1])))
+
+    class Open(HasTraits):
+        pass
+
+    class Strict(HasStrictTraits):
+        pass
+    o = (Strict if strict else Open)()
+    name = "thing"
+    o.add_trait(name, d)
+
+    def attempt(op, value=None):
+        try:
+            if op == "read":
+                return ("ok", getattr(o, name))
+            if op == "write":
+                setattr(o, name, value)
+            else:
+                delattr(o, name)
+            return ("ok", None)
+        except Exception as e:
+            return ("raised", type(e).__name__)
+
+    if kind == "serial":
+        ex.check(attempt("read") == ("ok", Undefined), "a transplanted ReadOnly reads as Undefined before it is defined")
+        ex.check(attempt("write", 11)[0] == "ok" and o.__dict__.get(name) == 11, "... accepts exactly one defining assignment")
+        ex.check(attempt("write", 12) == ("raised", "TraitError") and o.__dict__.get(name) == 11, "... and no second one")
+        ex.check(attempt("delete") == ("raised", "TraitError") and o.__dict__.get(name) == 11, "... and cannot be deleted")
+    elif kind == "fixed":
+        ex.check(attempt("read") == ("ok", 42), "a transplanted Constant reads as its value")
+        ex.check(attempt("write", 43) == ("raised", "TraitError") and attempt("read") == ("ok", 42), "... and never changes")
+        ex.check(attempt("delete")[0] == "raised" and attempt("read") == ("ok", 42), "... nor can it be deleted")
+    elif kind == "ev":
+        ex.check(attempt("write", 5)[0] == "ok" and name not in o.__dict__, "a transplanted Event can be written and stores nothing")
+        ex.check(attempt("read") == ("raised", "AttributeError"), "... and cannot be read")
+        ex.check(attempt("write", "x") == ("raised", "TraitError"), "... and validates what is fired")
+    else:
+        ex.check(attempt("read") == ("ok", 3), "a transplanted Int reads as its default")
+        ex.check(attempt("write", "x") == ("raised", "TraitError") and o.__dict__.get(name, 3) == 3, "... rejects invalid values")
+        ex.check(attempt("write", 8)[0] == "ok" and o.__dict__.get(name) == 8, "... and stores valid ones")
+    removed = o.remove_trait(name)
+    ex.check(removed is True and name not in o._instance_traits(), "remove_trait removes the instance trait and says so")
+    ex.check(name not in o.__dict__, "remove_trait takes the value away as well")
+    res = attempt("read")
+    ex.check(res == ("raised", "AttributeError"), "after remove_trait the class's own rule governs the name again: nothing to read")
+    if strict:
+        ex.check(attempt("write", 1) == ("raised", "TraitError") and name not in o.__dict__,
+                 "... and on a strict class nothing to write")
+    else:
+        ex.check(attempt("write", "anything")[0] == "ok" and o.__dict__.get(name) == "anything", "... and a plain attribute to write")
+    return {"definition": kind, "how": how}
+
+
 def obligations(tier, build):
     cenv.load_program(build)
     obs = []
@@ -427,6 +549,15 @@ def obligations(tier, build):
                               bounds={"name": "any string over [A-Za-z0-9_] of length <= %d" % MAXLEN,
                                       "class": cls.__name__, "prefix table": list(cls.__prefix_traits__["*"])},
                               leverage="the attribute name (z3 strings)", max_paths=5000, query_timeout_ms=60000, path_wall_s=180))
+    obs.append(Obligation("transplanted-definitions", transplanted_definition_harness,
+                          bounds={"definitions": ["ReadOnly", "Constant", "Event(Int)", "Int"],
+                                  "transplant": ["as is", "copy.copy", "copy.deepcopy", "pickle 2", "pickle 4"], "target class": ["HasTraits", "HasStrictTraits"]},
+                          leverage="choice feasibility only (compiled code runs concretely)"))
+    for cname in ("QS", "QP", "Q"):
+        obs.append(Obligation("delegated-write/%s" % cname, delegated_write_harness(cname), stubs=STUBS,
+                              bounds={"delegations (name on the deferring object -> target name)": ["%s -> %s" % d_ for d_ in DELEG],
+                                      "writes": 2, "values": [7, "text", None]},
+                              leverage="choice feasibility only; has_traits_setattro / setattr_delegate interpreted from the C source"))
     K = 2 if tier == "quick" else 3
     for cname in CLASSES:
         firsts = [None] if tier == "quick" else [(a, b) for a in range(6) for b in range(len(NAMES[cname]))]
